@@ -268,9 +268,10 @@ def declared_type(el):
         chain.append(chain[-1].getparent())
     t = xsdkit.model().global_elems.get(chain[-1].tag)
     for node in reversed(chain[:-1]):
+        t = _declared(t, node.tag) if t is not None else None
         if t is None:
-            return None
-        t = _declared(t, node.tag)
+            # below a wildcard (a:graphicData, a:ext): a global element declaration starts a new chain (a:tbl, c:chart, ...)
+            t = xsdkit.model().global_elems.get(node.tag)
     return t
 
 
